@@ -167,7 +167,13 @@ inductive Out where
 
 /-! ### helpers -/
 
-def hasNs (c : Cli) (n : Ns) : Bool := c.namespaces.any (fun e => e.1 = n)
+/-- `n in d` for a dict kept as an association list -/
+def hasKey (l : List (Ns × J)) (n : Ns) : Bool := l.any (fun e => e.1 = n)
+
+/-- `del d[n]` (if present) -/
+def dropNs (l : List (Ns × J)) (n : Ns) : List (Ns × J) := l.filter (fun e => e.1 ≠ n)
+
+def hasNs (c : Cli) (n : Ns) : Bool := hasKey c.namespaces n
 
 def ctrOf (ctr : List (Ns × Nat)) (n : Ns) : Nat :=
   match ctr.find? (fun e => e.1 = n) with
@@ -260,7 +266,7 @@ def handleDisconnect (cfg : Cfg) (c : Cli) (ns : Option Ns) : Cli × List Out :=
   else
     let n := nsOr ns
     let o1 := (trigger cfg sDisconnect n [.str rServer]).1
-    let rest := c.namespaces.filter (fun e => e.1 ≠ n)
+    let rest := dropNs c.namespaces n
     if rest.isEmpty then
       let r := eioDisconnect cfg { c with namespaces := rest, connected := false } rClient
       (r.1, o1 ++ r.2)
@@ -279,29 +285,31 @@ def handleEvent (cfg : Cfg) (c : Cli) (ns : Option Ns) (id : Option Nat) (data :
 
 def isKey (n : Ns) (i : Nat) (e : Ns × Nat × Cb) : Bool := e.1 = n && e.2.1 = i
 
+/-- `callback(*data)` -/
+def ackOuts (cb : Cb) : Option J → List Out
+  | some (.arr args) => [.callback cb args]
+  | _ => [.contained .typeError]
+
 def handleAck (c : Cli) (ns : Option Ns) (id : Option Nat) (data : Option J) : Cli × List Out :=
-  let n := nsOr ns
   match id with
   | none => (c, [])
   | some i =>
-    match c.cbs.find? (isKey n i) with
+    match c.cbs.find? (isKey (nsOr ns) i) with
     | none => (c, [])
-    | some e =>
-      let c' := { c with cbs := c.cbs.filter (fun x => !isKey n i x) }
-      match data with
-      | some (.arr args) => (c', [.callback e.2.2 args])
-      | _ => (c', [.contained .typeError])
+    | some e => ({ c with cbs := c.cbs.filter (fun x => !isKey (nsOr ns) i x) }, ackOuts e.2.2 data)
+
+/-- `_handle_error`: `None` → `()`, a list → its items, anything else → one argument -/
+def errArgs : Option J → List J
+  | none => []
+  | some .null => []
+  | some (.arr xs) => xs
+  | some j => [j]
 
 def handleError (cfg : Cfg) (c : Cli) (ns : Option Ns) (data : Option J) : Cli × List Out :=
   let n := nsOr ns
-  let args : List J := match data with
-    | none => []
-    | some .null => []
-    | some (.arr xs) => xs
-    | some j => [j]
-  let o := (trigger cfg sConnectError n args).1
+  let o := (trigger cfg sConnectError n (errArgs data)).1
   if n = root then ({ c with namespaces := [], connected := false }, o)
-  else ({ c with namespaces := c.namespaces.filter (fun e => e.1 ≠ n) }, o)
+  else ({ c with namespaces := dropNs c.namespaces n }, o)
 
 /-- dispatch of a complete packet in `_handle_eio_message` -/
 def handlePkt (cfg : Cfg) (c : Cli) (p : Packet) : Cli × List Out :=
